@@ -717,14 +717,17 @@ class BaseProject(object, metaclass=ABCMeta):
         """
         Remove record information on `absence_time_list`.
         """
-        self.product.remove_absence_time_list(self.absence_time_list)
-        self.workflow.remove_absence_time_list(self.absence_time_list)
-        self.organization.remove_absence_time_list(self.absence_time_list)
+        absence_time_list = sorted(set(self.absence_time_list))
+        self.product.remove_absence_time_list(absence_time_list)
+        self.workflow.remove_absence_time_list(absence_time_list)
+        self.organization.remove_absence_time_list(absence_time_list)
 
-        for step_time in sorted(self.absence_time_list, reverse=True):
+        removed_step_num = 0
+        for step_time in sorted(absence_time_list, reverse=True):
             if step_time < len(self.cost_list):
                 self.cost_list.pop(step_time)
-        self.time = self.time - len(self.absence_time_list)
+                removed_step_num += 1
+        self.time = self.time - removed_step_num
         self.absence_time_list = []
 
     def insert_absence_time_list(self, absence_time_list):
@@ -738,17 +741,23 @@ class BaseProject(object, metaclass=ABCMeta):
         # duplication check
         new_absence_time_list = []
         for time in absence_time_list:
-            if time not in self.absence_time_list:
+            if (
+                time not in self.absence_time_list
+                and time not in new_absence_time_list
+            ):
                 new_absence_time_list.append(time)
 
         self.product.insert_absence_time_list(new_absence_time_list)
         self.workflow.insert_absence_time_list(new_absence_time_list)
         self.organization.insert_absence_time_list(new_absence_time_list)
 
+        inserted_step_num = 0
         for step_time in sorted(new_absence_time_list):
-            self.cost_list.insert(step_time, 0.0)
+            if step_time < len(self.cost_list):
+                self.cost_list.insert(step_time, 0.0)
+                inserted_step_num += 1
 
-        self.time = self.time + len(new_absence_time_list)
+        self.time = self.time + inserted_step_num
         self.absence_time_list.extend(new_absence_time_list)
 
     def set_last_datetime(
